@@ -4,6 +4,7 @@
 # reports any that is no longer detected.  Works on PRIVATE copies so that /repo and /verif stay free:
 #   /tmp/vreg/repo   git worktree of /repo's HEAD (patches are applied and reverted there)
 #   /tmp/vreg/verif  copy of /verif's working tree (without .cache), harness path dependency rewritten
+# FIRST=1 stops at the first of the recorded checks that reports the change.
 # Both are removed at the end (KEEP=1 keeps them for a following run).
 set -u
 pat=${1:-C*}
@@ -31,7 +32,7 @@ for d in seeded/$pat/; do
   for c in $checks; do
     out=$(./check $c --tier ${TIER:-quick} 2>&1); rc=$?
     res="$res $c:exit=$rc"
-    [ $rc -eq 1 ] && echo "$out" | grep -q '^VIOLATION' && res="$res(VIOLATION)"
+    [ $rc -eq 1 ] && echo "$out" | grep -q '^VIOLATION' && res="$res(VIOLATION)" && [ -n "${FIRST:-}" ] && break
   done
   git -C $R/repo checkout -q -- .
   if echo "$res" | grep -q "exit=1(VIOLATION)"; then ok=$((ok+1)); echo "SEEDED $id detected:$res"; else bad=$((bad+1)); echo "SEEDED $id NOT-DETECTED:$res"; fi
